@@ -27,6 +27,9 @@ claimed = {
  "C09": ("other", "DESIGN.md section 4 C09",
    "Partially decided (level 'other'): deductive proof of the socket / deadline / lock typestate of the three sequential driver methods ut0311.BroadcastTo, SendUDP, SendTCP against assumed contracts of package net on a ghost socket state: exactly one socket per call, closed on every return path; every blocking write/read happens under a deadline and the dial carries one; the process-wide lock is taken iff the bind port is fixed and released on every path; the receive loop exits only with an accepted datagram or a read error (never gives up early by itself). The wall-clock bound, goroutine termination and ut0311.Broadcast / Listen are NOT decided.",
    BASE_NOTE + "; net and sync.Mutex calls are assumed events on a ghost typestate; codec.Dump trusted"),
+ "C10": ("other", "DESIGN.md section 4 C10",
+   "Partially decided (level 'other'): deductive proof per datagram - the receive handler turns every byte string into exactly one of (a) one freshly decoded event sent on the pipe, only for a 64-byte datagram with protocol id 0x17/0x19, function code 0x20, non-zero serial and in-domain fields, every event field being the protocol decoding of the datagram, or (b) exactly one OnError callback; listen() calls OnConnected exactly once after the driver started listening and returns nil. Exactly-once / in-order delivery across the goroutines, shutdown and the dispatch goroutine's mapping are NOT decided.",
+   BASE_NOTE + "; Listener callbacks and channel sends are ghost events; driver.Listen assumed"),
  "C12": ("proof", "DESIGN.md section 4 C12",
    "Unbounded deductive proof: bcd.Encode and bcd.Decode are verified against full functional contracts with loop invariants (all strings over the full byte alphabet incl. multi-byte UTF-8, all byte slices), and the two round-trip statements are lemma functions verified modularly against those contracts.",
    BASE_NOTE + "; UTF-8 range step, strings.Builder ghost model, fmt.Errorf != nil"),
